@@ -282,7 +282,11 @@ func (w *World) hook(name string, args ...any) {
 	case "queue.loop.reset":
 		w.resetPending.Store(false)
 		w.setLoopHook("reset")
-	case "queue.loop.beforeArm", "queue.loop.beforeTimer", "queue.loop.exit":
+	case "queue.loop.beforeArm":
+		// the loop is about to read the clock: remember the clock value (for the monitor only)
+		w.clk.WithLock(func(now time.Time) { w.add(Ev{Kind: "beforearm", Now: ns(w.base, now)}) })
+		w.setLoopHook("beforeArm")
+	case "queue.loop.beforeTimer", "queue.loop.exit":
 		w.setLoopHook(name[len("queue.loop."):])
 	case "queue.loop.fired":
 		w.setLoopHook("fired")
